@@ -99,6 +99,16 @@ pub fn eval(ctx: &Ctx, op: &str, a: &[&str]) -> Option<String> {
                     let mut d = data.clone(); let n = d.len(); d[0] = p[0]; d[n - 1] = p[1];
                     calc(kind, &Scs::new(d, shape.clone()).ok()?)
                 }
+                // call history on ONE spectrum object: total queried, then the two monomorphic cells overwritten in place through
+                // `IndexMut`, then the statistic (anything cached by the first call must not survive the edit)
+                "monoip" => {
+                    let p = parse_bits(a[4]);
+                    let mut s2 = scs.clone();
+                    let _ = s2.sum(); let _ = calc(kind, &s2);
+                    let first: Vec<usize> = vec![0; shape.len()]; let last: Vec<usize> = shape.iter().map(|v| v - 1).collect();
+                    s2[first] = p[0]; s2[last] = p[1];
+                    calc(kind, &s2)
+                }
                 "f3f2" => match (f2_of(&scs, [0, 1]), f2_of(&scs, [0, 2]), f2_of(&scs, [1, 2])) {
                     (Ok(ab), Ok(ac), Ok(bc)) => format!("{:016x}", (0.5 * (ab + ac - bc)).to_bits()),
                     _ => "ERR".into(),
@@ -121,7 +131,7 @@ pub fn eval(ctx: &Ctx, op: &str, a: &[&str]) -> Option<String> {
         }
         // st.genocli kinds cols samples records : the binaries: `sfs create | sfs stat --precision 12`
         "st.genocli" => {
-            let cs = crate::vcf::CallSet { cols: a[1].split(',').map(|s| s.to_string()).collect(), recs: create::parse_records(a[3]), extras: false };
+            let cs = crate::vcf::CallSet { cols: a[1].split(',').map(|s| s.to_string()).collect(), recs: create::parse_records(a[3]), extras: false, wide: 0 };
             let spec = create::CliSpec { container: "vcf", transport: "stdin", threads: 4, layout: 0 };
             let o1 = create::run_create(ctx, &cs, &spec, &create::parse_samples(a[2]), &None, false, None, "stgeno")?;
             if cli::class(&o1) != "OK" { return Some(format!("STAGE1 {}", cli::class(&o1))); }
@@ -205,7 +215,7 @@ pub fn gen_c06(ctx: &Ctx, rng: &mut Rng, out: &mut Vec<String>) {
         out.push(format!("st.geno\t{line}"));
         if i % 5 == 0 {
             // the same through the binaries (GT strings instead of codes)
-            let recs_cli: Vec<(String, usize, Vec<String>)> = recs.iter().map(|(c, p, gs)| (c.clone(), *p, gs.iter().map(|x| match x.as_str() { "0" => "0/0", "1" => "0|1", "2" => "1/1", "m" => "./.", "x" => "0/2", _ => "0" }.to_string()).collect())).collect();
+            let recs_cli: Vec<(String, usize, Vec<String>)> = recs.iter().map(|(c, p, gs)| (c.clone(), *p, gs.iter().enumerate().map(|(j, x)| match x.as_str() { "0" => "0/0", "1" => "0|1", "2" => "1/1", "m" => "./.", "x" => ["0/2", "0/10", "2/1", "1|12"][(j + *p) % 4], _ => "0" }.to_string()).collect())).collect();
             out.push(format!("st.genocli\t{}\t{}\t{}\t{}", ks.join(","), crate::creategen::cols(ncols).join(","), sl, crate::creategen::records_str(&recs_cli)));
         }
     }
@@ -227,6 +237,9 @@ pub fn gen_c14(ctx: &Ctx, rng: &mut Rng, out: &mut Vec<String>) {
             if !["sum", "d-fu-li"].contains(k) { out.push(format!("st.rel\tfold\t{k}\t{sh}\t{bs}\t-")); if i % 10 == 0 { out.push(format!("st.rel\tfoldcli\t{k}\t{sh}\t{bs}\t-")); } }
             // monomorphic entries: everything but sum, f2, f3, f4
             if !["sum", "f2", "f3", "f4"].contains(k) { out.push(format!("st.rel\tmono\t{k}\t{sh}\t{bs}\t{}", bits(&[rng.range(0, 100000) as f64, rng.range(0, 100000) as f64]))); }
+            // the same edit made in place on a spectrum whose total and statistic were already queried (every statistic: the value after
+            // the edit must be the statistic of the edited spectrum)
+            if i % 3 == 0 { out.push(format!("st.rel\tmonoip\t{k}\t{sh}\t{bs}\t{}", bits(&[rng.range(0, 100000) as f64, rng.range(0, 100000) as f64]))); }
             // scaling
             let c = *rng.pick(&[2.0f64, 0.5, 3.0, 0.1, 1000.0, 7.25, 1e-3]);
             out.push(format!("st.rel\tscale\t{k}\t{sh}\t{bs}\t{:016x}", c.to_bits()));
